@@ -44,7 +44,13 @@ except TypeError:
 
 
 MANIFEST = dict(
-    text=("Theorems in Lean 4 (Ekit/Props/C03.lean), for EVERY user-supplied Code/Equals pair subject only to the Hashable "
+    text=("Props/C03HM.lean, C03HMPut.lean: mapx/hashmap.go is translated on every run (harness/minigohm) into a deep embedding (interpreter "
+          "Ekit/MiniGo/LangHM.lean: node heap, the Go map as code -> optional head pointer, the node pool with the sync.Pool.Get choice as an oracle); "
+          "the interpreter running the translation is proved to simulate the hash-map model below step by step - constructor, Get, Put (chain walk, "
+          "newNode from pool or factory, link), Delete (the three unlink cases, formatting(), pool Put) return the model's answers, keep the simulation "
+          "relation and never panic, get stuck or run out of fuel (c03_hm_new_strong, c03_hm_get_refines_spec, c03_hm_put_refines, c03_hm_delete_refines); "
+          "the translated program is run against the real HashMap on every trace (area hmptr). Keys/Values/Len are not translated (range over a Go map). "
+          "Theorems in Lean 4 (Ekit/Props/C03.lean), for EVERY user-supplied Code/Equals pair subject only to the Hashable "
           "contract (Equals an equivalence, Equals keys have equal Codes; a constant Code is an instance), every history and every "
           "run-time choice (which pooled node sync.Pool hands out, in which order the Go map is iterated): the HashMap model "
           "(bucket table code -> collision chain, Put/Get/Delete as the chain walks of the source with the three unlink cases, "
